@@ -24,10 +24,10 @@ use crate::world::{SchedCfg, Stats, World, MS, SEC};
 // ------------------------------------------------------------------------------------ scripts
 
 #[derive(Clone, Debug, PartialEq)]
-pub enum Role { Op(usize), Save(usize), Query(usize, &'static str), Load, Reload(usize), PostAdd, ListWorkers }
+pub enum Role { Op(usize), Save(usize), Query(usize, &'static str), Load, Preload(usize), Reload(usize), PostAdd, ListWorkers }
 impl Role {
     fn name(&self) -> String {
-        match self { Role::Op(_) => "command".into(), Role::Save(_) => "SaveState".into(), Role::Query(_, q) => q.to_string(), Role::Load => "LoadState".into(), Role::Reload(_) => "ReloadConfiguration".into(), Role::PostAdd => "command_after_upgrade".into(), Role::ListWorkers => "ListWorkers".into() }
+        match self { Role::Op(_) => "command".into(), Role::Save(_) => "SaveState".into(), Role::Query(_, q) => q.to_string(), Role::Load => "LoadState".into(), Role::Preload(_) => "LoadState_of_a_chunk".into(), Role::Reload(_) => "ReloadConfiguration".into(), Role::PostAdd => "command_after_upgrade".into(), Role::ListWorkers => "ListWorkers".into() }
     }
 }
 
@@ -510,6 +510,23 @@ fn judge_load_verdict(ctx: &mut Ctx, name: &str, what: &str, i: usize, o: &Sessi
     }
 }
 
+/// `LoadState` of a file whose records the harness knows, on a main process holding the reference `m`: the
+/// records `m` accepts (file order) reach every worker once and in order, the verdict is OK with the right count
+fn judge_file_load(ctx: &mut Ctx, name: &str, what: &str, i: usize, o: &SessionOut, records: &[Request], m: &mut ConfigState) -> usize {
+    let mut expected: Vec<Request> = Vec::new();
+    for r in records { if m.dispatch(r).is_ok() { expected.push(r.clone()); } }
+    judge_exact_scatter(ctx, name, what, i, o, &expected);
+    judge_load_verdict(ctx, name, what, i, o, " ok messages");
+    if let Some(f) = final_of(&o.client, i) { if f.status != ResponseStatus::Ok as i32 { ctx.viol("state_file_not_loadable", what, format!("{name}: {what} ({} records) answered FAILURE: {}", records.len(), f.message.chars().take(160).collect::<String>())); } }
+    expected.len()
+}
+
+/// size classes of a state file relative to `load_state`'s 200000-byte read buffer
+fn size_probe(ctx: &mut Ctx, bytes: u64) {
+    ctx.add("state_file_bytes_loaded", bytes);
+    ctx.bump(if bytes > 1_000_000 { "state_files_over_1MB" } else if bytes > 400_000 { "state_files_over_two_read_buffers" } else if bytes > 200_000 { "state_files_over_one_read_buffer" } else { "state_files_within_one_read_buffer" });
+}
+
 // ------------------------------------------------------------------------------------ kinds
 
 fn ops_of(v: &Value, ctx: &mut Ctx) -> Vec<Request> {
@@ -552,9 +569,35 @@ fn kind_rejected(p: &HubCfgPlan, mut ctx: Ctx, dir: Files) -> Ctx {
 
 fn kind_saveload(p: &HubCfgPlan, mut ctx: Ctx, dir: Files) -> Ctx {
     let ops = ops_of(&p.ops, &mut ctx);
-    let mut s1: Script = ops.iter().enumerate().map(|(k, r)| (Role::Op(k), r.clone())).collect();
+    // bulk records: fed to the first main process by LoadState of chunks that each fit the reader's buffer
+    let mut chunks: Vec<Vec<Request>> = Vec::new();
+    let mut s1: Script = Vec::new();
+    if let Some(b) = &p.bulk {
+        let mut bytes = 0u64;
+        let mut cur: Vec<Request> = Vec::new();
+        let mut data: Vec<u8> = Vec::new();
+        let recs = super::bulk_records(b);
+        let n = recs.len();
+        for (k, r) in recs.into_iter().enumerate() {
+            let rec = super::state_file_record(k, &r);
+            bytes += rec.len() as u64;
+            data.extend_from_slice(&rec);
+            cur.push(r);
+            if bytes >= b.chunk_bytes.clamp(1_000, 180_000) || k + 1 == n {
+                let slot = 110 + chunks.len();
+                use std::io::Write;
+                if let Err(e) = dir.create(slot).and_then(|mut f| f.write_all(&data).map_err(|e| e.to_string())) { ctx.herr = Some(format!("cannot write a chunk file: {e}")); return ctx; }
+                s1.push((Role::Preload(chunks.len()), RequestType::LoadState(dir.path(slot)).into()));
+                chunks.push(std::mem::take(&mut cur));
+                data.clear();
+                bytes = 0;
+                if chunks.len() >= 800 { break; }
+            }
+        }
+    }
+    s1.extend(ops.iter().enumerate().map(|(k, r)| (Role::Op(k), r.clone())));
     s1.extend(obs_block(&dir, 0, false));
-    let o1 = run_session(session_spec(p, false, &s1, 30 * SEC, ctx.verbose));
+    let o1 = run_session(session_spec(p, false, &s1, 60 * SEC, ctx.verbose));
     let mut s2: Script = vec![(Role::Load, RequestType::LoadState(save_path(&dir, 0)).into())];
     s2.extend(obs_block(&dir, 1, false));
     // the second main process only exists if the first one produced its file
@@ -566,8 +609,18 @@ fn kind_saveload(p: &HubCfgPlan, mut ctx: Ctx, dir: Files) -> Ctx {
         let snap1 = read_snap(&s1, &o1.client, 0, &dir);
         if snap1.complete { judge_snap_sanity(&mut ctx, "first", &snap1); }
         let mut m = ConfigState::new();
+        for (c, recs) in chunks.iter().enumerate() {
+            let Some(i) = idx_of(&s1, &Role::Preload(c)) else { continue };
+            if miss1.is_some_and(|x| i >= x) { break; }
+            let n = judge_file_load(&mut ctx, "first", "LoadState_of_a_chunk", i, &o1, recs, &mut m);
+            ctx.add("bulk_records_loaded_in_chunks", n as u64);
+        }
         judge_ops(&mut ctx, "first", &s1, &o1, &mut m, None, miss1);
-        if miss1.is_none() { judge_convergence(&mut ctx, "first", &snap1, &o1, "main_and_workers_diverge"); }
+        if miss1.is_none() {
+            judge_convergence(&mut ctx, "first", &snap1, &o1, "main_and_workers_diverge");
+            if let Some(st) = &snap1.state { compare_to_reference(&mut ctx, "first", "main_state_differs_from_reference", "before_save", &m, st); }
+        }
+        if let Ok(f) = dir.open(0) { if let Ok(md) = f.metadata() { if snap1.state.is_some() { size_probe(&mut ctx, md.len()); } } }
         let Some(o2) = o2 else { return ctx };
         dump_session(&mut ctx, "second", &s2, &o2, &dir);
         let miss2 = judge_session(&mut ctx, "second", &s2, &o2);
@@ -575,9 +628,19 @@ fn kind_saveload(p: &HubCfgPlan, mut ctx: Ctx, dir: Files) -> Ctx {
         if snap2.complete { judge_snap_sanity(&mut ctx, "second", &snap2); }
         if miss2.is_some() { return ctx; }
         // every record of the file reached every worker of the second main process once, in file order
+        if let Some(f) = final_of(&o2.client, 0) {
+            if f.status != ResponseStatus::Ok as i32 {
+                let bytes = dir.open(0).ok().and_then(|f| f.metadata().ok()).map_or(0, |m| m.len());
+                ctx.viol("saved_state_not_loadable", "LoadState", format!("second: LoadState of the file the first main process saved ({} records, {bytes} bytes) answered FAILURE: {}", snap1.records.len(), f.message.chars().take(160).collect::<String>()));
+                // a load that was refused as a whole: what follows from it (nothing scattered, nothing restored) is not reported again map by map
+                if live_workers(&o2).iter().all(|w| caused_by(&o2.client, 0, w).iter().all(|x| x.ok)) {
+                    judge_load_verdict(&mut ctx, "second", "LoadState", 0, &o2, " ok messages");
+                    return ctx;
+                }
+            }
+        }
         judge_exact_scatter(&mut ctx, "second", "LoadState", 0, &o2, &snap1.records);
         judge_load_verdict(&mut ctx, "second", "LoadState", 0, &o2, " ok messages");
-        if let Some(f) = final_of(&o2.client, 0) { if f.status != ResponseStatus::Ok as i32 { ctx.viol("saved_state_not_loadable", "LoadState", format!("second: LoadState of the file the first main process saved answered FAILURE: {}", f.message.chars().take(160).collect::<String>())); } }
         // the two main processes show the same configuration
         let emptied: BTreeSet<String> = o1.workers.first().map(|w| w.state.backends.iter().filter(|(_, v)| v.is_empty()).map(|(k, _)| k.clone()).chain(w.state.tcp_fronts.iter().filter(|(_, v)| v.is_empty()).map(|(k, _)| k.clone())).collect()).unwrap_or_default();
         let (diffs, exempted) = snap_diff_ex(&snap1, &snap2, Some(&emptied));
@@ -675,11 +738,13 @@ fn kind_loadover(p: &HubCfgPlan, mut ctx: Ctx, dir: Files) -> Ctx {
     let bpath = dir.path(100);
     let bfile = dir.create(100);
     let (ops1, opsb1, on_a) = (ops.clone(), ops_b.clone(), p.b_on_a);
+    let bulk = p.bulk.clone();
     let written = judge_world(p.seed ^ 0xB, move || {
         let mut a = ConfigState::new();
         for r in &ops1 { let _ = a.dispatch(r); }
         let mut b = if on_a { a } else { ConfigState::new() };
         for r in &opsb1 { let _ = b.dispatch(r); }
+        if let Some(bulk) = &bulk { for r in super::bulk_records(bulk) { let _ = b.dispatch(&r); } }
         bfile.and_then(|mut f| b.write_requests_to_file(&mut f).map_err(|e| e.to_string())).map(|n| (n, b))
     });
     let (n_records, b_state) = match written { Ok(x) => x, Err(e) => { ctx.herr = Some(format!("cannot write B's state file: {e}")); return ctx; } };
@@ -705,8 +770,17 @@ fn kind_loadover(p: &HubCfgPlan, mut ctx: Ctx, dir: Files) -> Ctx {
         let mut expected: Vec<Request> = Vec::new();
         for r in &recs { if m.dispatch(&r.content).is_ok() { expected.push(r.content.clone()); } }
         ctx.add("file_records", recs.len() as u64);
+        if let Ok(f) = dir.open(100) { if let Ok(md) = f.metadata() { size_probe(&mut ctx, md.len()); } }
         ctx.add("file_records_refused_by_current_state", (recs.len() - expected.len()) as u64);
         let i = idx_of(&script, &Role::Load).unwrap();
+        if let Some(f) = final_of(&o.client, i) {
+            if f.status != ResponseStatus::Ok as i32 && live_workers(&o).iter().all(|w| caused_by(&o.client, i, w).iter().all(|x| x.ok)) {
+                let bytes = dir.open(100).ok().and_then(|f| f.metadata().ok()).map_or(0, |m| m.len());
+                ctx.viol("state_file_not_loadable", "LoadState", format!("main: LoadState of a file written by write_requests_to_file ({} records, {bytes} bytes) answered FAILURE: {}", recs.len(), f.message.chars().take(160).collect::<String>()));
+                judge_load_verdict(&mut ctx, "main", "LoadState", i, &o, " ok messages");
+                return ctx;
+            }
+        }
         judge_exact_scatter(&mut ctx, "main", "LoadState", i, &o, &expected);
         judge_load_verdict(&mut ctx, "main", "LoadState", i, &o, " ok messages");
         if let Some(st) = &snap_ab.state { compare_to_reference(&mut ctx, "main", "load_result_differs_from_reference", "main_process;LoadState", &m, st); }
